@@ -17,9 +17,12 @@ import (
 )
 
 type caseOut struct {
-	res   *Result
-	trace *Trace
-	fs    []Finding
+	res         *Result
+	trace       *Trace
+	fs          []Finding
+	stalls      int
+	skipped     bool
+	stallDetail string
 }
 
 // Main is the whole harness of property prop ("C17" or "C02").
@@ -94,15 +97,39 @@ func Main(prop string) {
 						}
 					}()
 					to := timeout
-					if atomic.LoadInt32(&lost) >= 3 {
+					if n := atomic.LoadInt32(&lost); n >= 8 {
+						// the connection hangs again and again: the verdict is settled, do not spend the time
+						co.res = &Result{Case: cases[i]}
+						co.skipped = true
+						return
+					} else if n >= 3 {
 						to = 2 * time.Second
 					}
 					co.res = RunCase(cases[i], to)
-					for _, p := range co.res.Problems {
-						if p.Sig == "harness-wait-timeout" {
-							atomic.AddInt32(&lost, 1)
-							break
+					stalled := func(r *Result) bool {
+						for _, p := range r.Problems {
+							if p.Sig == "harness-wait-timeout" {
+								return true
+							}
 						}
+						return false
+					}
+					if stalled(co.res) && atomic.LoadInt32(&lost) < 3 {
+						// A wait that times out is reported as a failure only if it does so twice: the case is
+						// played once more on a fresh connection.  (Seen once in ~30 000 cases on a loaded box and
+						// never reproduced; a deadlock caused by the code under test reproduces and is reported,
+						// with the goroutines that were inside thunder.)  Counted in the histogram either way.
+						first := co.res
+						co.stalls = 1
+						co.res = RunCase(cases[i], to)
+						if stalled(co.res) {
+							co.stalls = 2
+							atomic.AddInt32(&lost, 1)
+						} else {
+							co.stallDetail = first.Problems[0].Detail
+						}
+					} else if stalled(co.res) {
+						atomic.AddInt32(&lost, 1)
 					}
 					if prop == "C17" {
 						co.fs = OracleC17(co.res)
@@ -166,8 +193,21 @@ func Main(prop string) {
 	for idx, co := range outs {
 		c := cases[idx]
 		run.LogCase(idx, c)
+		if co.skipped {
+			run.Hist("harness:skipped-after-repeated-timeouts")
+			continue
+		}
 		for _, f := range co.fs {
 			run.Fail(idx, f.Sig, f.Detail, c)
+		}
+		if co.stalls == 1 {
+			run.Hist("harness:wait-timeout-not-reproduced")
+			if run.Extra == nil {
+				run.Extra = map[string]interface{}{}
+			}
+			run.Extra[fmt.Sprintf("stall-%d", idx)] = map[string]interface{}{"case": c, "detail": co.stallDetail}
+		} else if co.stalls == 2 {
+			run.Hist("harness:wait-timeout-reproduced")
 		}
 		if co.trace == nil {
 			continue
